@@ -39,6 +39,7 @@ DELIMS = [
     ("nt_norequire", "NullTerminated({}, term=b'\\xff', require=False)", dict(term=b"\xff", include=False, consume=True, require=False)),
     ("nt2", "NullTerminated({}, term=b'\\r\\n')", dict(term=b"\r\n", include=False, consume=True, require=True)),
     ("ns", "NullStripped({})", dict(pad=b"\x00")),
+    ("ns2", "NullStripped({}, pad=b'\\x00\\x00')", dict(pad=b"\x00\x00")),
     ("oe", "OffsettedEnd(-1, {})", dict(end=-1)),
     ("oe0", "OffsettedEnd(0, {})", dict(end=0)),
     ("oe_t", "OffsettedEnd(-this._params.t, {})", {}),
@@ -101,6 +102,14 @@ def region(tag, buf, pos, base, key, t=0):
         while data and same([data[-1]], [0]):
             data.pop()
         return data, base + pos, len(buf)
+    if tag == "ns2":
+        # two-byte pad: a ragged last byte goes only if it is a pad byte, then whole pad units go; payload bytes never do
+        data = list(buf[pos:])
+        if len(data) % 2 and same([data[-1]], [0]):
+            data.pop()
+        while len(data) >= 2 and same(data[-2:], [0, 0]):
+            data = data[:-2]
+        return data, base + pos, len(buf)
     if tag in ("oe", "oe0", "oe_t"):
         end = len(buf) - {"oe": 1, "oe0": 0, "oe_t": t}[tag]
         if end < pos:
@@ -128,6 +137,13 @@ def instances(tier, seed):
             for i in (("tells", "greedybytes", "pointer") if tier == "quick" else INNERS):
                 for s in ((1,) if tier == "quick" else (0, 1, 3)):
                     add([a, b], i, s)
+    for a in tags:
+        for b in ("nt_noconsume", "nt_incl_noconsume", "nt", "prefixed", "fixed"):
+            out.append(dict(name="%s(struct(%s(greedybytes), rest)) @1" % (a, b), params=dict(chain=[a, b], inner="greedybytes", s=1, n=n, tail=True)))
+    for a in ("prefixed", "prefixed_incl", "fixed"):
+        for i in ("tells", "rawcopy", "pointer", "greedybytes"):
+            for s0 in (0, 2):
+                out.append(dict(name="compiled %s(%s) @%d" % (a, i, s0), params=dict(chain=[a], inner=i, s=s0, n=n, compiled=True)))
     seen = set(o["name"] for o in out)
     for _ in range(150 if tier == "quick" else 1500):
         depth = rnd.choice([3, 3, 4]) if tier != "quick" else 3
@@ -162,10 +178,40 @@ def harness(ctx, C, p):
         inner_src = "Pointer(%d, Byte)" % target
     else:
         inner_src = INNERS[inner]
+    if p.get("tail"):
+        # the inner delimiter is followed, inside the outer region, by a member that reads the rest of that region: where the
+        # inner delimiter leaves the ENCLOSING (sub)stream becomes visible
+        a, b = chain
+        try:
+            buf0, base0, after0 = region(a, list(data), s, 0, key, t)
+            rej0 = None
+        except Reject as e:
+            rej0 = e
+        d = mk(C, DMAP[a][1].format("Struct('d'/%s, 'rest'/GreedyBytes)" % DMAP[b][1].format("GreedyBytes")))
+        st = ctx.stream(data)
+        st.seek(s)
+        r = api.outcome(d.parse_stream, st, key=key, t=t)
+        if rej0 is not None:
+            ctx.check("a region that does not fit / lacks its terminator is rejected", (not r.ok) and isinstance(r.exc, C.ConstructError))
+            return "region-reject"
+        try:
+            buf1, base1, after1 = region(b, buf0, 0, base0, key, t)
+        except Reject:
+            ctx.check("an inner region that does not fit is rejected", (not r.ok) and isinstance(r.exc, C.ConstructError))
+            return "region-reject"
+        ctx.check("parse succeeds", r.ok)
+        ctx.check("the inner delimiter sees its region", ctx.eq(r.value.d, mkbytes(buf1)))
+        ctx.check("the member after the inner delimiter starts where the inner delimiter's contract leaves the enclosing region", ctx.eq(r.value.rest, mkbytes(buf0[after1:])))
+        ctx.check("the outer stream stands where the outer delimiter's contract says", st.tell() == after0)
+        return "ok"
     source = inner_src
     for tag in reversed(chain):
         source = DMAP[tag][1].format(source)
     d = mk(C, source)
+    if p.get("compiled"):
+        if rejected is not None:
+            return "region-reject"        # compiled parsers do not check short reads (documented): nothing claimed
+        d = d.compile()
     st = ctx.stream(data)
     st.seek(s)
     r = api.outcome(d.parse_stream, st, key=key, t=t)
@@ -181,12 +227,16 @@ def harness(ctx, C, p):
         ctx.check("inner GreedyRange sees all and only the region's bytes", ctx.eq(list(r.value), list(buf)))
     elif inner == "byte":
         if len(buf) < 1:
+            if p.get("compiled"):
+                return "inner-reject"        # compiled parsers do not check short reads (documented)
             ctx.check("empty region: inner Byte fails with StreamError", (not r.ok) and isinstance(r.exc, C.StreamError))
             return "inner-reject"
         ctx.check("parse succeeds", r.ok)
         ctx.check("inner Byte reads the region's first byte", ctx.eq(r.value, buf[0]))
     elif inner == "tells":
         if len(buf) < 1:
+            if p.get("compiled"):
+                return "inner-reject"        # compiled parsers do not check short reads (documented)
             ctx.check("empty region: inner Byte fails with StreamError", (not r.ok) and isinstance(r.exc, C.StreamError))
             return "inner-reject"
         ctx.check("parse succeeds", r.ok)
@@ -196,6 +246,8 @@ def harness(ctx, C, p):
         ctx.check("GreedyBytes after a Byte sees the rest of the region", ctx.eq(v.g, mkbytes(buf[1:])))
     elif inner == "rawcopy":
         if len(buf) < 2:
+            if p.get("compiled"):
+                return "inner-reject"        # compiled parsers do not check short reads (documented)
             ctx.check("short region: inner Int16ub fails with StreamError", (not r.ok) and isinstance(r.exc, C.StreamError))
             return "inner-reject"
         ctx.check("parse succeeds", r.ok)
@@ -205,6 +257,8 @@ def harness(ctx, C, p):
                                  ctx.eq(v.value, buf[0] * 256 + buf[1])]))
     elif inner == "pointer":
         if len(buf) < 2:
+            if p.get("compiled"):
+                return "inner-reject"        # compiled parsers do not check short reads (documented)
             ctx.check("Pointer target outside the region is rejected", (not r.ok) and isinstance(r.exc, C.StreamError))
             return "inner-reject"
         ctx.check("parse succeeds", r.ok)
